@@ -111,6 +111,29 @@ TailList(cl, i, acc) == IF i > Len(cl) THEN acc ELSE TailList(cl, i + 1, Repeat(
 Expand(cl, dom, pos) ==
     LET t == TailList(cl, 1, << >>) IN SubSeq(t, 1, pos - 1) \o <<dom>> \o SubSeq(t, pos, Len(t))
 
+\* ---- the same family with finer values (lists up to 10^7 elements): a class is
+\* <<xm, xe, mult>> = mult copies of the value xm * 10^-xe of the dominant element (xe >= 6).
+\* Totals are taken per class in Unit (1e-6) units: (mult * xm) \div 10^(xe - 6); with xe = 6
+\* this is the unscaled closed form above (ScaledLemma in ProbAlgebraMC).
+RECURSIVE Pow10(_)
+Pow10(k) == IF k <= 0 THEN 1 ELSE 10 * Pow10(k - 1)
+\* cnt copies of class c, in Unit units (cnt * xm < 2^31 < 10^10: beyond 10^-15 per element nothing is left;
+\* this also keeps Pow10 inside 32 bits)
+ClassUnits(c, cnt) == IF c[2] - 6 >= 10 THEN 0 ELSE (cnt * c[1]) \div Pow10(c[2] - 6)
+RECURSIVE ScaledTotal(_, _, _)
+ScaledTotal(cl, i, acc) == IF i > Len(cl) THEN acc ELSE ScaledTotal(cl, i + 1, acc + ClassUnits(cl[i], cl[i][3]))
+RECURSIVE ScaledCount(_, _, _)
+ScaledCount(cl, i, acc) == IF i > Len(cl) THEN acc ELSE ScaledCount(cl, i + 1, acc + cl[i][3])
+RECURSIVE ScaledTailPrefix(_, _, _, _)
+ScaledTailPrefix(cl, i, j, acc) ==
+    IF i > Len(cl) \/ j <= 0 THEN acc
+    ELSE ScaledTailPrefix(cl, i + 1, j - cl[i][3], acc + ClassUnits(cl[i], IF j < cl[i][3] THEN j ELSE cl[i][3]))
+ScaledPrefixClosed(cl, pos, k) ==
+    IF k >= pos THEN Unit + ScaledTailPrefix(cl, 1, k - 1, 0) ELSE ScaledTailPrefix(cl, 1, k, 0)
+\* no 32-bit overflow: mult * xm < 2^31 for every class
+ScaledOK(cl) == \A i \in 1..Len(cl) : cl[i][1] >= 1 /\ cl[i][2] >= 6 /\ cl[i][2] <= 30 /\ cl[i][3] >= 0
+                                      /\ cl[i][3] <= 2000000000 \div cl[i][1]
+
 \* integration grids with 10^5 .. 10^6 points: density = ONE peak cell kp (value peak) on a
 \* piecewise constant floor (x1 for grid indices < h, x2 for indices >= h; 0-based indices
 \* 0..n-1).  The weighted sum  sum_k W(k) * y(k)  of the rule is a closed form.
